@@ -384,7 +384,68 @@ def normalized_collection(ctx, n):
             ctx.disagree("C13:normalize-collection", desc, "the same quadrics, rescaled", r[1:3] if r[0] != "ok" else np.asarray(r[1].array).tolist(), replay=[desc])
 
 
+def int_homogeneous_centres(ctx, n, prefix="C13"):
+    """centres given as INTEGER homogeneous vectors with last coordinate != 1 whose affine coordinates are not integers
+    (e.g. [3, 4, 2] = (1.5, 2)): the quadric must be the one of the float centre (matrix dtype must not be inherited)"""
+    import geometer as g
+    rng = ctx.rng
+    for k in range(n):
+        kind = rng.choice(["circle", "ellipse", "sphere"])
+        w = rng.choice([2, 2, 4, -2])
+        d = 3 if kind == "sphere" else 2
+        num = [rng.choice([-5, -3, -1, 1, 3, 5, 7]) for _ in range(d)]
+        ci = g.Point(np.array(num + [w], dtype=np.int64))
+        cf = g.Point(*[x / w for x in num])
+        r1, r2 = rng.randint(1, 4), rng.randint(1, 4)
+        if kind == "circle":
+            mk = lambda c: g.Circle(c, r1)
+        elif kind == "ellipse":
+            mk = lambda c: g.Ellipse(c, r1, r2)
+        else:
+            mk = lambda c: g.Sphere(c, r1)
+        desc = f"{kind} with integer homogeneous centre {num + [w]} (= {[x / w for x in num]}) radii {r1},{r2}"
+        ctx.case(desc)
+        ctx.count("int-homogeneous-centre:" + kind)
+        a, b = call_impl(lambda: mk(ci)), call_impl(lambda: mk(cf))
+        if a[0] != "ok" or b[0] != "ok":
+            ctx.disagree(f"{prefix}:int-homogeneous-centre:{kind}:error", desc, "a quadric", (a[1:3], b[1:3]), replay=[desc])
+            continue
+        A, B = np.asarray(a[1].array, dtype=float), np.asarray(b[1].array, dtype=float)
+        i = np.unravel_index(np.argmax(np.abs(B)), B.shape)
+        ok = abs(A[i]) > 0 and np.allclose(A / A[i], B / B[i], rtol=1e-9, atol=1e-12)
+        # a point of the locus: centre + (r1, 0[, 0])
+        p = g.Point(*([num[0] / w + r1] + [x / w for x in num[1:]]))
+        rc = call_impl(lambda: bool(a[1].contains(p)))
+        if not ok or rc[0] != "ok" or rc[1] is not True:
+            ctx.disagree(f"{prefix}:int-homogeneous-centre:{kind}", desc, "the quadric of the float centre, containing centre + (r, 0..)",
+                         {"same matrix": bool(ok), "contains": rc[1:3]}, replay=[desc])
+
+
+def complex_points_stream(ctx, n):
+    """Conic.from_points through five points with complex (Gaussian integer) coordinates: the conic contains all five"""
+    import geometer as g
+    rng = ctx.rng
+    for k in range(n):
+        pts = [np.array([complex(rng.randint(-3, 3), rng.randint(-2, 2)), complex(rng.randint(-3, 3), rng.randint(-2, 2)), 1.0]) for _ in range(5)]
+        if any(abs(np.linalg.det(np.array([pts[i] for i in idx]))) < 0.5 for idx in itertools.combinations(range(5), 3)):
+            continue
+        P = [g.Point(p * rng.choice([1, 2, 1j])) for p in pts]
+        desc = f"from_points complex {[p[:2].tolist() for p in pts]}"
+        ctx.case(desc)
+        ctx.count("from_points:complex")
+        c = call_impl(lambda: g.Conic.from_points(*P))
+        if c[0] != "ok":
+            ctx.disagree("C13:from_points:complex:error", desc, "a conic", c[1:3], replay=[desc])
+            continue
+        A = np.asarray(c[1].array)
+        res = [abs(p @ A @ p) / (np.linalg.norm(p) ** 2 * np.linalg.norm(A)) for p in pts]
+        if max(res) > 1e-9:
+            ctx.disagree("C13:from_points:complex:misses-point", desc, "all five points on the conic", [float(x) for x in res], replay=[desc])
+
+
 def correspondence(ctx):
+    complex_points_stream(ctx, ctx.budget(40, 400))
+    int_homogeneous_centres(ctx, ctx.budget(40, 400))
     normalized_collection(ctx, ctx.budget(20, 150))
     conic_stream(ctx, ctx.budget(80, 1500))
     foci_stream(ctx, ctx.budget(40, 600))
